@@ -474,6 +474,18 @@ type ServiceSafePoint struct {
 	SafePoint uint64 `json:"safe_point"`
 }
 
+// serviceSafePointPath returns the storage key of the safepoint of a service. The service id is
+// a part of the key, so an id that path.Join would rewrite ("..", "a/../b", "a//b", ...) is refused:
+// it would address another key, e.g. another service's safepoint or the GC safe point itself.
+func serviceSafePointPath(serviceID string) (string, error) {
+	prefix := path.Join(gcPath, "safe_point", "service")
+	key := path.Join(prefix, serviceID)
+	if key != prefix+"/"+serviceID {
+		return "", errors.Errorf("invalid service id %q of service safepoint", serviceID)
+	}
+	return key, nil
+}
+
 // SaveServiceGCSafePoint saves a GC safepoint for the service
 func (s *Storage) SaveServiceGCSafePoint(ssp *ServiceSafePoint) error {
 	if ssp.ServiceID == "" {
@@ -484,7 +496,10 @@ func (s *Storage) SaveServiceGCSafePoint(ssp *ServiceSafePoint) error {
 		return errors.New("TTL of gc_worker's service safe point must be infinity")
 	}
 
-	key := path.Join(gcPath, "safe_point", "service", ssp.ServiceID)
+	key, err := serviceSafePointPath(ssp.ServiceID)
+	if err != nil {
+		return err
+	}
 	value, err := json.Marshal(ssp)
 	if err != nil {
 		return err
@@ -498,7 +513,10 @@ func (s *Storage) RemoveServiceGCSafePoint(serviceID string) error {
 	if serviceID == gcWorkerServiceSafePointID {
 		return errors.New("cannot remove service safe point of gc_worker")
 	}
-	key := path.Join(gcPath, "safe_point", "service", serviceID)
+	key, err := serviceSafePointPath(serviceID)
+	if err != nil {
+		return err
+	}
 	return s.Remove(key)
 }
 
